@@ -277,16 +277,26 @@ luaL_setfuncs({LUA_state_var}, {LUA_class_reg}, 0);
         else:
             lines.append("int SH_nresult = 0;")
             fmt.LUA_used_param_state = True
-            append_format(
-                lines, "int SH_nargs = lua_gettop({LUA_state_var});", fmt
-            )
+            # A method is called as obj:name(args):
+            # the object is the first item on the stack.
+            if cls and not is_ctor:
+                this_offset = 1
+                append_format(
+                    lines,
+                    "int SH_nargs = lua_gettop({LUA_state_var}) - 1;", fmt
+                )
+            else:
+                this_offset = 0
+                append_format(
+                    lines, "int SH_nargs = lua_gettop({LUA_state_var});", fmt
+                )
 
             # Find type of each argument
             itype_vars = []
             for iarg in range(1, maxargs + 1):
                 itype_vars.append("SH_itype{}".format(iarg))
                 fmt.itype_var = itype_vars[-1]
-                fmt.iarg = iarg
+                fmt.iarg = iarg + this_offset
                 append_format(
                     lines,
                     "int {itype_var} = " "lua_type({LUA_state_var}, {iarg});",
@@ -509,7 +519,11 @@ luaL_setfuncs({LUA_state_var}, {LUA_class_reg}, 0);
 
         # Only process nargs.
         # Each variation of default-arguments produces a new call.
-        LUA_index = 1
+        # The object of a method call is the first item on the stack.
+        if cls and not is_ctor:
+            LUA_index = 2
+        else:
+            LUA_index = 1
         for iarg in range(luafcn.nargs):
             arg = ast.params[iarg]
             arg_name = arg.name
